@@ -335,3 +335,71 @@ def smart_len(seq):
         if _within(s, a, l):
             return z3.simplify(l)
     return z3.Length(seq)
+
+
+# -- arithmetic abstraction (for the fast entailment oracle) ------------------------------------------------------------
+
+_ARITH_KINDS = {z3.Z3_OP_ADD, z3.Z3_OP_SUB, z3.Z3_OP_MUL, z3.Z3_OP_UMINUS, z3.Z3_OP_IDIV, z3.Z3_OP_MOD, z3.Z3_OP_LE,
+                z3.Z3_OP_GE, z3.Z3_OP_LT, z3.Z3_OP_GT, z3.Z3_OP_ITE, z3.Z3_OP_AND, z3.Z3_OP_OR, z3.Z3_OP_NOT,
+                z3.Z3_OP_IMPLIES, z3.Z3_OP_XOR, z3.Z3_OP_ANUM, z3.Z3_OP_TRUE, z3.Z3_OP_FALSE, z3.Z3_OP_DIV, z3.Z3_OP_TO_REAL,
+                z3.Z3_OP_REM}
+_abs_memo: dict = {}
+_abs_counter = [0]
+
+
+def arith_abstract(t):
+    """Replace every maximal non-arithmetic subterm by an opaque constant (same subterm -> same constant).
+    Returns (abstract term, list of side facts such as len >= 0)."""
+    facts = []
+    r = _abs(t, facts)
+    return r, facts
+
+
+def _opaque(t, facts):
+    key = t.get_id()
+    if key in _abs_memo:
+        c = _abs_memo[key][0]
+    else:
+        _abs_counter[0] += 1
+        c = z3.Const(f"abs!{_abs_counter[0]}", t.sort())
+        _abs_memo[key] = (c, t)
+    if z3.is_app(t) and t.decl().kind() == z3.Z3_OP_SEQ_LENGTH:
+        facts.append(c >= 0)
+        arg = t.arg(0)
+        if z3.is_app(arg):
+            ak = arg.decl().kind()
+            if ak == z3.Z3_OP_SEQ_CONCAT:
+                facts.append(c == z3.Sum([_abs(z3.Length(arg.arg(i)), facts) for i in range(arg.num_args())]))
+            elif ak == z3.Z3_OP_SEQ_UNIT:
+                facts.append(c == 1)
+            elif ak == z3.Z3_OP_SEQ_EMPTY:
+                facts.append(c == 0)
+            elif ak == z3.Z3_OP_SEQ_EXTRACT:
+                # SMT-LIB: |extract(s, a, l)| = 0 if a < 0 or a >= |s| or l <= 0, else min(l, |s| - a)
+                n = _abs(z3.Length(arg.arg(0)), facts)
+                a = _abs(arg.arg(1), facts)
+                ln = _abs(arg.arg(2), facts)
+                facts.append(c == z3.If(z3.Or(a < 0, a >= n, ln <= 0), 0, z3.If(ln <= n - a, ln, n - a)))
+    return c
+
+
+def _abs(t, facts):
+    if z3.is_quantifier(t) or not z3.is_app(t):
+        return _opaque(t, facts)
+    srt = t.sort().kind()
+    if srt not in (z3.Z3_BOOL_SORT, z3.Z3_INT_SORT, z3.Z3_REAL_SORT):
+        return _opaque(t, facts)
+    k = t.decl().kind()
+    if k == z3.Z3_OP_UNINTERPRETED and t.num_args() == 0:
+        return t
+    if k in _ARITH_KINDS:
+        args = [_abs(t.arg(i), facts) for i in range(t.num_args())]
+        if t.num_args() == 0:
+            return t
+        return t.decl()(*args)
+    if k in (z3.Z3_OP_EQ, z3.Z3_OP_DISTINCT):
+        a0 = t.arg(0).sort().kind()
+        if a0 in (z3.Z3_BOOL_SORT, z3.Z3_INT_SORT, z3.Z3_REAL_SORT):
+            args = [_abs(t.arg(i), facts) for i in range(t.num_args())]
+            return t.decl()(*args)
+    return _opaque(t, facts)
